@@ -188,9 +188,10 @@ class Deliver(Part):
     exec_module = "DeliverExec"
     parallel = False        # the runs are timing-sensitive enough: one at a time
     branch_names = {1: "several_senders", 2: "crosses_batch_bound_4096", 3: "over_300_consecutive_batches",
-                    4: "restarts_with_senders_active", 5: "sends_while_Started_is_running"}
+                    4: "restarts_with_senders_active", 5: "sends_while_Started_is_running", 6: "children_listed_while_they_stop"}
     restart_only = False
     spawnrace_only = False
+    childrenrace_only = False
 
     def generate(self, rng, tier):
         cs = [dict(mode="chain", total=350), dict(mode="chain", total=1000),
@@ -203,6 +204,11 @@ class Deliver(Part):
                         restart_delay_ms=25, handler_micros=150, pace_micros=300),
                    dict(mode="multi", senders=2, per_sender=250, inbox_size=2, panic_at=[[1, 10]],
                         restart_delay_ms=40, handler_micros=100, pace_micros=250)]
+        if self.childrenrace_only:
+            cs = [dict(mode="childrenrace", senders=0, per_sender=n, total=r) for n, r in ((8, 150), (40, 60))]
+            if tier == "thorough":
+                cs += [dict(mode="childrenrace", senders=0, per_sender=rng.randint(2, 60), total=300) for _ in range(6)]
+            return [{"input": c, "class": "childrenrace"} for c in cs]
         if self.spawnrace_only:
             cs = [dict(mode="spawnrace", senders=1, per_sender=n, inbox_size=sz) for n, sz in ((1, 1), (7, 1), (50, 2), (300, 1))]
             if tier == "thorough":
@@ -227,15 +233,26 @@ class Deliver(Part):
     def to_coq(self, inp, obs):
         senders = inp.get("senders", 1)
         per = inp.get("per_sender", inp.get("total", 0))
-        return ("{| c_senders := %s; c_per_sender := %s; c_got := %s; c_hang := %s; c_overlap := %s; c_restarts := %s; "
-                "c_spawnrace := " + C.cbool(inp["mode"] == "spawnrace") + "; c_spawn_early := " + C.cbool(obs.get("spawn_early", False)) + " |}") % (
+        if inp["mode"] == "childrenrace":
+            per = 0
+        head = "{| c_senders := %s; c_per_sender := %s; c_got := %s; c_hang := %s; c_overlap := %s; c_restarts := %s; " % (
             C.cnat(senders), C.cnat(per),
             C.clist(["{| g_from := %s; g_seq := %s; g_sender_ok := %s |}" % (C.cnat(g[0]), C.cnat(min(g[1], 4999)), C.cbool(g[2] == 1))
                      for g in obs["got"]]), C.cbool(obs["hang"]), C.cbool(obs.get("overlap", False)),
             C.cnat(len(inp.get("panic_at", []))))
+        return (head + "c_spawnrace := " + C.cbool(inp["mode"] == "spawnrace") + "; c_spawn_early := " +
+                C.cbool(obs.get("spawn_early", False)) + "; c_anomalies := " + C.cnat(min(obs.get("anomalies", 0), 4999)) + " |}")
 
     def describe_obs(self, obs):
-        return {"received": len(obs["got"]), "hang": obs["hang"], "overlap": obs.get("overlap"), "first": obs["got"][:6]}
+        return {"received": len(obs["got"]), "hang": obs["hang"], "overlap": obs.get("overlap"), "anomalies": obs.get("anomalies", 0), "first": obs["got"][:6]}
+
+
+class DeliverChildrenRace(Deliver):
+    """Context.Children() listed by a parent while its children are being stopped by someone else"""
+    name = "engine_children_race"
+    childrenrace_only = True
+    parallel = True
+    confirm = False
 
 
 class DeliverSpawnRace(Deliver):
